@@ -253,6 +253,58 @@ def guarded_opens(prog, cg, eff, chk, rid, roots):
     return n
 
 
+def handle_state_untouched(prog, cg, chk, E6, obs):
+    """Observing twice gives the same answer only if the first observation leaves the handle as it
+    was: no member function of the library reached from an observer assigns to, or moves from, a
+    data member of its own object (constructors, destructors and assignment operators excepted: they
+    build the objects that are returned)."""
+    seen = set()
+    n = 0
+    for label, defs, kind in obs:
+        reach = cg.reachable(defs)
+        for k, (g, _, _) in reach.items():
+            if k in seen or g.body is None or g.cls is None or not prog.in_repo(g.file):
+                continue
+            seen.add(k)
+            if g.kind in ('CXXConstructorDecl', 'CXXDestructorDecl') or g.name.startswith('operator'):
+                continue
+            if g.cls == TXN or '(lambda' in (g.qualname or ''):
+                continue
+            n += 1
+            bad = None
+
+            def is_own_member(e):
+                e = strip(e, explicit=True)
+                if e.get('kind') != 'MemberExpr':
+                    return False
+                c = children(e)
+                b = strip(c[0], explicit=True) if c else {}
+                return b.get('kind') == 'CXXThisExpr' or not c
+            for x in walk(g.body):
+                kk = x.get('kind')
+                if kk == 'CallExpr' and (strip(children(x)[0]).get('referencedDecl') or {}).get('name') == 'move' \
+                        and len(children(x)) > 1 and is_own_member(children(x)[1]):
+                    bad = ('moves from its member %s' % strip(children(x)[1], explicit=True).get('name'), x)
+                elif kk in ('BinaryOperator', 'CompoundAssignOperator') and (x.get('opcode') or '').endswith('=') \
+                        and x.get('opcode') not in ('==', '!=', '<=', '>=') and is_own_member(children(x)[0]):
+                    bad = ('assigns its member %s' % strip(children(x)[0], explicit=True).get('name'), x)
+                elif kk == 'CXXOperatorCallExpr' and len(children(x)) > 2 and \
+                        (strip(children(x)[0]).get('referencedDecl') or {}).get('name') == 'operator=' \
+                        and is_own_member(children(x)[1]):
+                    bad = ('assigns its member %s' % strip(children(x)[1], explicit=True).get('name'), x)
+                if bad:
+                    break
+            short = '::'.join((g.qualname or '').split('::')[-2:])
+            if bad:
+                chk.violation(E6, '%s|%s' % (short, bad[0]), locstr(bad[1]),
+                              '%s, reached from observer %s, %s: the handle is not the same after the observation, '
+                              'so a repeated observation answers differently (or dereferences a moved-from pointer)'
+                              % (short, label, bad[0]))
+            else:
+                chk.ok(E6, '%s leaves the members of its object untouched' % short, locstr(g.node))
+    return n
+
+
 def run(tier='quick'):
     prog = program.load()
     cg = callgraph.get(prog)
@@ -376,6 +428,9 @@ def run(tier='quick'):
                           'sqlite opens with READWRITE|CREATE, so loading would create the file' % (
                               inst, [_show_path(g) for g in guards]))
 
+    E6 = chk.rule('E6', 'no member function reached from an observer assigns to or moves from a data member of its '
+                        'own object: the handle is the same after the observation', floor=100)
+    handle_state_untouched(prog, cg, chk, E6, obs)
     for label, defs, kind in mut:
         es, reach = eff.transitive(defs)
         where = '%s:%s' % (program.rel(defs[0].file), defs[0].line)
